@@ -53,7 +53,7 @@ func runC01(c *ctx, r *Report) error {
 		nMut = 40000
 	}
 	repl := c01Replacements()
-	r.Rule = fmt.Sprintf("(1) node kind × tag × position: at EVERY node of the three base workflows (all sections of the syntax), of a local action.yml, of a reusable workflow and of actionlint.yaml, the node is replaced by each of %d replacements (mapping, empty mapping, sequence, nested, merge key, null, explicit !!float nan/.nan/.inf/1e999/-0/abc, !!int 0x/huge/abc, !!bool, !!binary, !custom, !!timestamp, broken placeholders, NUL, 70 kB scalar, deep parenthesis / property / JSON nesting) and keys are replaced by non-string nodes; an alias/anchor pair is planted at every position; (2) %d random byte-level mutations (flip, insert special bytes, truncate, duplicate lines) of the four files incl. invalid UTF-8; (3) deep nesting and 64 KiB inputs in a child process; every case must end in diagnostics or a fatal error (exit 0/1/3 through Command.Main for a sample), never a panic, fatal runtime error or a 20 s timeout; non-trivial = distinct mutated sources", len(repl), nMut)
+	r.Rule = fmt.Sprintf("(1) node kind × tag × position: at EVERY node of the three base workflows (all sections of the syntax), of a local action.yml, of a reusable workflow and of actionlint.yaml, the node is replaced by each of %d replacements (mapping, empty mapping, sequence, nested, merge key, null, explicit !!float nan/.nan/.inf/1e999/-0/abc, !!int 0x/huge/abc, !!bool, !!binary, !custom, !!timestamp, broken placeholders, NUL, 70 kB scalar, deep parenthesis / property / JSON nesting) and keys are replaced by non-string nodes; an alias (with its anchor elsewhere) is planted at every position, bare and one / two levels inside a planted sequence or mapping, and as a mapping key; (2) %d random byte-level mutations (flip, insert special bytes, truncate, duplicate lines) of the four files incl. invalid UTF-8; (3) deep nesting and 64 KiB inputs in a child process; every case must end in diagnostics or a fatal error (exit 0/1/3 through Command.Main for a sample), never a panic, fatal runtime error or a 20 s timeout; non-trivial = distinct mutated sources", len(repl), nMut)
 	tmp, err := os.MkdirTemp("", "verif-c01-")
 	if err != nil {
 		return err
@@ -168,24 +168,45 @@ func runC01(c *ctx, r *Report) error {
 						break
 					}
 				}
-				if first != nil {
+				if first != nil && nodeAt(m, v.path) != first {
 					first.Anchor = "anc"
 					parent := nodeAt(m, v.path[:len(v.path)-1])
-					if parent.Content[v.path[len(v.path)-1]] != first {
-						parent.Content[v.path[len(v.path)-1]] = &yaml.Node{Kind: yaml.AliasNode, Alias: first, Value: "anc"}
-						if src, err := emitYAML(m); err == nil {
-							r.Evaluations++
-							if tg.rel == "" {
-								_, _, pmsg, to := lintGuarded("w.yaml", src)
-								if pmsg != "" || to {
-									report(tg.channel, "alias at "+strings.Join(v.keys, "."), src, pmsg, to)
-								}
-							} else {
-								write(tg.rel, src)
-								pmsg, to, _ := lintProject()
-								if pmsg != "" || to {
-									report(tg.channel, "alias at "+strings.Join(v.keys, "."), src, pmsg, to)
-								}
+					alias := func() *yaml.Node { return &yaml.Node{Kind: yaml.AliasNode, Alias: first, Value: "anc"} }
+					str := func(s string) *yaml.Node { return &yaml.Node{Kind: yaml.ScalarNode, Tag: "!!str", Value: s} }
+					seq := func(c ...*yaml.Node) *yaml.Node { return &yaml.Node{Kind: yaml.SequenceNode, Tag: "!!seq", Content: c} }
+					mp := func(c ...*yaml.Node) *yaml.Node { return &yaml.Node{Kind: yaml.MappingNode, Tag: "!!map", Content: c} }
+					// the alias itself, and the alias one and two levels inside a sequence / mapping planted here
+					shapes := []struct {
+						name string
+						n    *yaml.Node
+					}{
+						{"alias", alias()}, {"[x, alias]", seq(str("x"), alias())}, {"[[x, alias]]", seq(seq(str("x"), alias()))},
+						{"{k: alias}", mp(str("k"), alias())}, {"{k: [alias]}", mp(str("k"), seq(alias()))}, {"[{k: alias}]", seq(mp(str("k"), alias()))},
+						{"{alias: v}", mp(alias(), str("v"))},
+					}
+					for si, sh := range shapes {
+						if c.quick && si > 0 && tg.channel != "workflow" {
+							continue
+						}
+						parent.Content[v.path[len(v.path)-1]] = sh.n
+						src, err := emitYAML(m)
+						if err != nil {
+							continue
+						}
+						what := sh.name + " at " + strings.Join(v.keys, ".")
+						r.Evaluations++
+						r.nontrivial(tg.channel + what)
+						r.hist("alias-shape")
+						if tg.rel == "" {
+							_, _, pmsg, to := lintGuarded("w.yaml", src)
+							if pmsg != "" || to {
+								report(tg.channel, what, src, pmsg, to)
+							}
+						} else {
+							write(tg.rel, src)
+							pmsg, to, _ := lintProject()
+							if pmsg != "" || to {
+								report(tg.channel, what, src, pmsg, to)
 							}
 						}
 					}
